@@ -438,6 +438,17 @@ def fingerprint(m, x, deep=True, cfg=None):
             torch.manual_seed(SEED_PROBE)
             with torch.no_grad():
                 fp['output'] = th(call(c, x))
+            # inference as the user would run it: eval() on a copy, then forward (only differs from the above if some module trains)
+            if not (cfg or {}).get('eval_probe'):      # (one more copy + forward per step: only where the histories switch modes / write parameters)
+                fp['output_eval'] = None
+            elif any(mod.training for mod in m.modules()):
+                c = clone(m)
+                c.eval()
+                torch.manual_seed(SEED_PROBE)
+                with torch.no_grad():
+                    fp['output_eval'] = th(call(c, x))
+            else:
+                fp['output_eval'] = fp['output']
         finally:
             torch.random.set_rng_state(saved)
     return fp
@@ -469,6 +480,29 @@ def apply_op(m, x, op, method):
         if op in ('train_nas_only', 'train_net_only', 'train_net_and_nas'):
             getattr(m, op)()
             return 'ok'
+        if op == 'mode_eval':
+            m.eval()
+            return 'ok'
+        if op == 'mode_train':
+            m.train()
+            return 'ok'
+        if op in ('write_params', 'load_params'):
+            # new values of the architectural parameters without any forward pass: written in place / through load_state_dict.
+            # 1.2 - p crosses the binarization threshold of PIT masks, a flip along the first axis changes the arg-max of selectors
+            new = {k: ((1.2 - p.detach()) if method == 'PIT' else p.detach().flip(0) * 0.75 + 0.1).clone() for k, p in m.named_nas_parameters()}
+            if op == 'write_params':
+                with torch.no_grad():
+                    for k, p in m.named_nas_parameters():
+                        p.copy_(new[k])
+            else:
+                m.load_state_dict(new, strict=False)
+            return 'ok'
+        if op == 'opt_step':
+            with torch.no_grad():
+                for p in m.parameters():
+                    if p.requires_grad and p.grad is not None:
+                        p.sub_(0.05 * p.grad)
+            return 'ok'
         if op == 'flip_sub':
             for mod in sub_modules(m, CUR['cfg']):
                 mod.training = not mod.training
@@ -476,7 +510,7 @@ def apply_op(m, x, op, method):
         if op == 'forward':
             with torch.no_grad():
                 return th(call(m, x))
-        if op == 'train_step':
+        if op in ('train_step', 'backward'):
             ps = [p for p in m.parameters() if p.requires_grad]
             for p in ps:
                 p.grad = None
@@ -495,6 +529,8 @@ def apply_op(m, x, op, method):
             if not loss.requires_grad:      # nothing trainable reaches the loss (e.g. NAS-only training with a hard, gradient-free selection)
                 return th(y)
             loss.backward()
+            if op == 'backward':       # the update is a separate op ('opt_step'): observers may run in between
+                return th(y)
             with torch.no_grad():
                 for p in ps:
                     if p.grad is not None:
